@@ -203,8 +203,10 @@ class World:
             self.s.emit("tick")
             self.run()
 
-    def spawn(self, fn, *a, name=None):
+    def spawn(self, fn, *a, name=None, role=None):
         t = simrt.Thread(target=fn, args=a, name=name)
+        if role:
+            t.role = (role, t._idx)
         _set_role(t)
         t.start()
         return t
@@ -255,7 +257,7 @@ class World:
 
 
 _CUR = [None]
-_PRIO = {"rd": 0, "wr": 1, "proc": 2, "app_recv": 3, "app_resp": 4, "io": 5, "stats": 6, "env": 7, "other": 8}
+_PRIO = {"rd": 0, "wr": 1, "proc": 2, "app_recv": 3, "app_resp": 4, "io": 5, "stats": 6, "env": 7, "other": 8, "stop": 9}
 _TARGET_ROLE = {"_handle_connections": "io", "_collect_stats": "stats", "_wait_for_recv_msg": "app_recv",
                 "_wait_for_resp_msg": "app_resp", "_process_recv_msg": "proc", "work_read_queue": "rd", "work_write_queue": "wr"}
 
